@@ -941,7 +941,7 @@ def c11_tl2_leg(ctx, n_rand=None):
     Returns (ops, results, violations): ops = [(unit, op line, kind)], results = [(reference, go)],
     violations = [{"sig": "C11:tl2:<kind>...", "what", "data", "no_input"}] (nothing is reported to ctx)."""
     quick = ctx.quick()
-    n_rand = n_rand if n_rand is not None else (3 if quick else 30)
+    n_rand = n_rand if n_rand is not None else (3 if quick else 10)
     ops, results, viol = [], [], []
 
     def v(sig, what, data, no_input=False):
